@@ -122,6 +122,14 @@ func c01Check(c c01Case, r *h.Rec) error {
 		})
 	}
 	r.Class("gen:" + c.Gen)
+	// differential fidelity check of the in-process loader against analysis.LoadSource (1 case in 60, and on confirmation)
+	sum := specKey(c.Spec)
+	if r.Confirm || sum[0]%60 == 0 {
+		if err := fidelity(c.Spec); err != nil {
+			return err
+		}
+		r.Add("fastload_fidelity_checked", 1)
+	}
 	return nil
 }
 
